@@ -32,7 +32,7 @@ inductive CStepL : BC → BC → Prop
   | act (c : BC) (v : BV) (ws : List Msg) (gs : List BEv) (h : BStep c.a v ws gs) :
       CStepL c { c with a := v, ab := if c.abOpen then c.ab ++ ws else c.ab, ga := c.ga ++ gs }
   /-- the oldest message in transit is delivered (and ignored by a source that has ended) -/
-  | dlv (c : BC) (m : Msg) (rest : List Msg) (deaf : Bool) (h : c.ba = m :: rest) :
+  | dlv (c : BC) (m : Msg) (rest : List Msg) (deaf : Bool) (h : c.ba = m :: rest) (hd : deaf = deafV c.a) :
       CStepL c { c with ba := rest, a := { c.a with inbox := if deaf then c.a.inbox else c.a.inbox ++ [.msg m] } }
   /-- the wire to the left side is lost (a cut, or a Close was delivered): items that are not frames may
       enter the inbox -/
